@@ -220,6 +220,12 @@ def stream_definitions(ctx, db, est, k, defs, key="L0", arity=1, build_args=None
                 # measure-zero branches (a data equality such as `third central sum == 0` holds) are
                 # decided by R-SENTINEL/R-CONST; the generic branch is compared below
                 continue
+            if is_float(got) and F.is_lit(got) and F.is_nan_lit(got) and not (F.is_lit(want) and F.is_nan_lit(want)):
+                acc_fn = est.m(lab.split("(")[0], None) or fn
+                ctx.ob("R-LAW", k2, acc_fn, R.fn_site(db, acc_fn), False,
+                       "after %d abstract observations %s returns the NaN sentinel on a path with no data equality [path: %s] although its definition is defined there" % (k, lab, pcs),
+                       d7=False, sample={"accessor": lab, "k": k, "path_condition": pcs})
+                continue
             try:
                 ok, diff = pit.identical([(lab, got, want)], seed=seed, points=3, squares=False, integers=True)
             except pit.NeedSymbolic as e:
